@@ -183,6 +183,8 @@ class MosekWrapper(Wrapper):
         # Create a symmetric matrix in MOSEK
         size = psd_matrix.shape[0]
         self.task.appendbarvars([size])
+        # Index of the newly created matrix variable in MOSEK (the Gram matrix being the matrix variable 0).
+        psd_index_in_mosek = self._nb_pep_SDPconstraints_in_mosek - 1
 
         # Store one correspondence constraint per entry of the matrix
         for i in range(psd_matrix.shape[0]):
@@ -200,7 +202,7 @@ class MosekWrapper(Wrapper):
                     -.5 * (i != j) - 1 * (i == j)])  # 1/2 because we have to symmetrize the matrix!
                 # fill the mosek (equality) constraint 
                 self.task.putbaraij(nb_cons, 0, [sym_A1], [1.0])
-                self.task.putbaraij(nb_cons, psd_matrix.counter + 1, [sym_A2], [1.0])
+                self.task.putbaraij(nb_cons, psd_index_in_mosek, [sym_A2], [1.0])
                 self.task.putaijlist(nb_cons + np.zeros(a_i.shape, dtype=np.int8), a_i, a_val)
                 self.task.putconbound(nb_cons, mosek.boundkey.fx, -alpha_val, -alpha_val)
 
